@@ -2337,3 +2337,37 @@ CASES += [
          new="""    let mut searcher = HashTableElement { psl: itm.psl, ..itm };
     let mut pos = pos;"""),
 ]
+
+CASES += [
+    # ------------------------------------------------------------------ UF (round 9: C09-r9m1)
+    dict(name="uf-unit-skipped-under-a-budget", file=UP, rule="UG", props=["C09"], expect="decide:unit-found-is-propagated",
+         old="""                // just found a unit. propagate it and move onto the next watcher
+                let new_unit = remaining_lits.next().unwrap();""",
+         new="""                // just found a unit. propagate it and move onto the next watcher
+                if cur_state.true_assignments.iter().count() > 4096 {
+                    watcher_idx += 1;
+                    continue;
+                }
+                let new_unit = remaining_lits.next().unwrap();"""),
+    dict(name="uf-match-on-the-count-ok", file=UP, rule="UG", props=["C09"], expect=None,
+         old="""            } else if num_remaining == 1 {
+                // just found a unit. propagate it and move onto the next watcher
+                let new_unit = remaining_lits.next().unwrap();
+                match self.decide(cur_state, *new_unit) {
+                    UnitPropResult::UNSAT => return UnitPropResult::UNSAT,
+                    UnitPropResult::PartialSAT(new_state) => {
+                        cur_state = new_state;
+                        watcher_idx += 1;
+                    }
+                }
+            } else {""",
+         new="""            } else if 1 == num_remaining {
+                // just found a unit. propagate it and move onto the next watcher
+                let new_unit = *remaining_lits.next().unwrap();
+                let UnitPropResult::PartialSAT(new_state) = self.decide(cur_state, new_unit) else {
+                    return UnitPropResult::UNSAT;
+                };
+                cur_state = new_state;
+                watcher_idx += 1;
+            } else {"""),
+]
